@@ -89,7 +89,7 @@ def lenEntries (S : Schema) (f : FieldD) : List Val → List Val → R Nat
        (dumpVal S (.msg c slots ow unknown cur)).bind fun body =>
        if f.mapV == PType.message then frame 2 f.mapV body false false else .error .type
      | v => serializeScalar S 2 f.mapV v false Option.none).bind fun sv =>
-    (lenFrame f.num f.ty (sk ++ sv).length false false).bind fun e =>
+    (lenFrame f.num f.ty (sk ++ sv).length true false).bind fun e =>
     (lenEntries S f ks vs).bind fun rest => .ok (e + rest)
   | _, _ => .ok 0
 
